@@ -780,6 +780,19 @@ def _norm1(e, ctx):
             return ('sub', ('sub', b[1][1], b[2][0]), e[2])     # D.get(k)[i] == D[k][i] (subscripting implies presence)
         if b[0] == 'item' and e[2][0] == 'const' and isinstance(e[2][1], int) and not isinstance(e[2][1], bool) and e[2][1] >= 0:
             return ('item', b[1], tuple(b[2]) + (e[2][1],))      # component k of a loop item: the path of a tuple-unpacking target
+        # a slice bound chosen at generation time is a choice between two slices; the full slice of a value is the value
+        if e[2][0] == 'slice':
+            lo_, hi_, st_ = e[2][1], e[2][2], e[2][3]
+            if hi_[0] == 'phi':
+                return ('phi', hi_[1], ('sub', b, ('slice', lo_, hi_[2], st_)), ('sub', b, ('slice', lo_, hi_[3], st_)))
+            if lo_[0] == 'phi':
+                return ('phi', lo_[1], ('sub', b, ('slice', lo_[2], hi_, st_)), ('sub', b, ('slice', lo_[3], hi_, st_)))
+            if lo_ in (('const', 0), ('const', None)) and hi_ == ('const', None) and st_ in (('const', 1), ('const', None)):
+                return b
+        # bit k of a word-wide choice against zero: Mux(c, a, 0)[k] is Mux(c, a[k], 0)  (the result is as wide as a; its bits are
+        # a's bits or zeros)
+        if b[0] == 'call' and b[1] == ('name', 'Mux') and len(b[2]) == 3 and b[2][2] == ('const', 0) and e[2][0] != 'slice':
+            return ('call', ('name', 'Mux'), (b[2][0], ('sub', b[2][1], e[2]), ('const', 0)), ())
         return None
     if k == 'slice':
         lo, hi, st = e[1], e[2], e[3]
